@@ -22,10 +22,16 @@ def layout(m):
         for n in names:
             tid = m.di_by_name.get(n)
             if tid:
-                return {p: o for p, o, s, t in m.di_leaves(tid)}
+                # members of an anonymous struct / union are members of the enclosing type
+                return {p.replace("<anon>.", ""): o for p, o, s, t in m.di_leaves(tid)}
         raise AnalysisError("anchor vanished: %s" % names[0])
     N = offs("bintree_node_t", "bintree_node")
     I = offs("bintree_iterator_t", "bintree_iterator")
+    for d, ks, what in ((N, ("left", "right"), "bintree_node_t"), (I, ("curr", "parent"), "bintree_iterator_t")):
+        for k_ in ks:
+            if k_ not in d:
+                raise AnalysisError("anchor vanished: %s.%s (members now: %s): the iterator's representation changed and the rules stated "
+                                    "over the documented members cannot decide this tree" % (what, k_, ", ".join(sorted(d))))
     return N["left"], N["right"], I["curr"], I["parent"]
 
 
@@ -221,6 +227,11 @@ def check_post_order(chk, m, L, R, CUR, PAR):
                 ok = x is not None and x[0] == "ld" and x[1] == e.ptr
                 chk.ob("M2.tag", "bintree_iterate_post_order %s" % s.lstrip("%"), ok,
                        "the marking pass sets exactly bit 0 of node->left (value %s)" % fmt(e.val)[:60], e.inst.loc, fn.name)
+    if n == 0:
+        f0 = m.fn("bintree_iterate_post_order")
+        chk.ob("M2.tag", "bintree_iterate_post_order", False,
+               "the marking pass of the post-order set-up stores no tag in this build (is the store inside an assert()?): no node counts "
+               "as unvisited, the post-order iterator returns nothing and bintree_free frees nothing", f0.loc, f0.name)
     chk.expect("M2", "tag stores", n, 1)
     fn, ss = segs(m, "post_order_iterator")
     chk.note_fn(fn)
